@@ -39,6 +39,9 @@ ResBI == ResultOf(Bool, IntT, "result<bool, int>")
 OptBB == OptionOf(Tup(<<Bool, Bool>>), "option<(bool, bool)>")
 OptOptB == OptionOf(OptB, "option<option<bool>>")
 OptColor == OptionOf(Color, "option<Color>")
+\* a generic enum instantiated with void: the payload of `some` occupies no column and no slot
+OptV == OptionOf(Void, "option<void>")
+ResVI == ResultOf(Void, IntT, "result<void, int>")
 
 TyU == << [n |-> "bool", ty |-> Bool], [n |-> "void", ty |-> Void], [n |-> "int", ty |-> IntT],
           [n |-> "float", ty |-> FltT], [n |-> "string", ty |-> StrT],
@@ -51,7 +54,8 @@ TyU == << [n |-> "bool", ty |-> Bool], [n |-> "void", ty |-> Void], [n |-> "int"
           [n |-> "boolbool_bool", ty |-> Tup(<<Tup(<<Bool, Bool>>), Bool>>)], [n |-> "string_int", ty |-> Tup(<<StrT, IntT>>)],
           [n |-> "Color_Color", ty |-> Tup(<<Color, Color>>)],
           \* a void payload followed by another column
-          [n |-> "Ev_bool", ty |-> Tup(<<Ev, Bool>>)], [n |-> "Mv", ty |-> Mv] >>
+          [n |-> "Ev_bool", ty |-> Tup(<<Ev, Bool>>)], [n |-> "Mv", ty |-> Mv],
+          [n |-> "optvoid", ty |-> OptV], [n |-> "resvoidint", ty |-> ResVI] >>
 NT == Len(TyU)
 UserTys == <<Color, Shape, Nm, Ev, Pt, Wr, Mv>>
 Header == FlatS([i \in 1..Len(UserTys) |-> TypeDecl(UserTys[i]) \o ShowDecl(UserTys[i])])
